@@ -132,10 +132,16 @@ def corpus(tier, seed):
         for src in rotating_assignments(sk, SHORT_LEAVES, per, rnd):
             out.append(('sk:' + sk + ':' + src[:40], src))
     # long strings in every context
+    QUICK_LONG = {
+        LONG_STR: ['_', "[_, 'x']", "{'k': _}"], LONG_BYTES: ['_', '{_: 1}'],
+        LONG_STR_QUOTES: ['_', "[_, 'x']"], LONG_BYTES_QUOTES: ['(_,)'], LONG_BYTES_PUNCT: ['_'],
+        LONG_STR_QUOTES2: ["{'k': [_]}"], LONG_BYTES_HIGH: ['[_]'], LONG_STR_NOSPACE: ["[_, 'x']"],
+        LONG_STR_PUNCT: ['_'], LONG_BYTES_BIN: ['[_]'],
+    }
     for lf in (LONG_STR, LONG_BYTES, LONG_STR_NOSPACE, LONG_STR_PUNCT, LONG_BYTES_BIN,
                LONG_STR_QUOTES, LONG_STR_QUOTES2, LONG_BYTES_QUOTES, LONG_BYTES_PUNCT, LONG_BYTES_HIGH):
         for sk in ('_', '[_]', "[_, 'x']", "{_: 1}", "{'k': _}", "(_,)", "{'k': [_]}"):
-            if tier == 'quick' and lf not in (LONG_STR, LONG_BYTES, LONG_STR_QUOTES, LONG_BYTES_PUNCT) and sk not in ("[_, 'x']", '_'):
+            if tier == 'quick' and sk not in QUICK_LONG.get(lf, ()):
                 continue
             out.append(('long:' + sk + ':' + lf[:12], fill_holes(sk, [lf])))
     for src in SORTED_DICTS:
